@@ -47,7 +47,7 @@ type c06Plan struct {
 	CheckpointMs int `json:"checkpoint_ms,omitempty"`
 }
 
-const c06Docs = 4
+const c06Docs = 6 // random plans use the first four; the catch-up flavour all six
 
 // the server's answer to a websocket handshake that offered only the legacy (revision-tree) sub-protocol
 const c06LegacyAccepted = "Sec-Websocket-Protocol: BLIP_3+CBMobile_3"
@@ -106,7 +106,7 @@ func c06Generate(seed uint64, tier string, index int) json.RawMessage {
 	for t := 0; t < r.Range(2, 3); t++ {
 		var prog []c06Op
 		for i := 0; i < r.Range(2, 6); i++ {
-			op := c06Op{Kind: "put", Side: r.Intn(2), Doc: r.Intn(c06Docs)}
+			op := c06Op{Kind: "put", Side: r.Intn(2), Doc: r.Intn(4)}
 			switch x := r.Intn(40); {
 			case x < 6:
 				op.Kind = "delete"
@@ -148,6 +148,24 @@ func c06Generate(seed uint64, tier string, index int) json.RawMessage {
 		p.Cfg.MaxFaults = r.Range(1, 4)
 	}
 	switch index % 16 {
+	case 7:
+		// directed: both sides write while the replication is stopped; when it starts again the pushed documents reach
+		// the passive side while the pull is catching up, so that batches of changes mix revisions the active side
+		// needs with revisions it already knows; checkpoints are taken every 20 ms and the clock moves in 20 ms steps
+		p.Direction, p.Continuous, p.Faulty, p.CheckpointMs = "pushAndPull", true, false, 20
+		p.Cfg.MaxFaults, p.Cfg.FaultPermille = 0, nil
+		p.Cfg.ClockPermille, p.Cfg.ClockStepsMs = []int{60, 150, 300}[r.Intn(3)], []int{20}
+		prog := []c06Op{{Kind: "repl-stop"}, {Kind: "idle", Ms: 400}}
+		for i := 0; i < r.Range(5, 9); i++ {
+			d := r.Intn(c06Docs)
+			prog = append(prog, c06Op{Kind: "put", Side: d % 2, Doc: d})
+		}
+		prog = append(prog, c06Op{Kind: "repl-start"})
+		for i := 0; i < r.Range(0, 3); i++ {
+			d := r.Intn(c06Docs)
+			prog = append(prog, c06Op{Kind: "put", Side: d % 2, Doc: d})
+		}
+		p.Tasks = [][]c06Op{prog}
 	case 3:
 		// directed: a write on the sending side stays in flight (its sequence is allocated, the document is not stored
 		// yet) while later documents are sent, checkpointed and the replication is stopped; then the write lands
@@ -557,6 +575,45 @@ func c06Body(env *verifsim.Env, p c06Plan, mon *c17Mon) *verifsim.Violation {
 	}
 	if w.net.Dialled > 1000 {
 		vio.Key = "reconnect-storm"
+	}
+	if vio.Key == "" && p.Legacy && len(diffs) > 0 {
+		// recorded finding (revision-tree protocol): only a document's winning revision travels.  When both sides hold
+		// both branches of a conflict but one side has tombstoned a branch the other side still has live (a delete that
+		// was superseded, as the document's latest change, before the replication announced it), each side knows the
+		// other's current revision and neither adopts it.
+		explained := true
+		for i := 0; i < c06Docs; i++ {
+			a, b := states[0][docID(i)], states[1][docID(i)]
+			if !c06Differ(a, b, p.Legacy) {
+				continue
+			}
+			ra, rb := c17Raw(nodes[0], docID(i)), c17Raw(nodes[1], docID(i))
+			ok := ra.exists && rb.exists && ra.rev != "" && rb.rev != ""
+			if ok {
+				_, aKnowsB := ra.sync.History[rb.rev]
+				_, bKnowsA := rb.sync.History[ra.rev]
+				ok = aKnowsB && bKnowsA
+			}
+			if ok {
+				// the trees differ in which of the shared revisions' branches end in a tombstone
+				tombA, tombB := 0, 0
+				for _, ri := range ra.sync.History {
+					if ri.Deleted {
+						tombA++
+					}
+				}
+				for _, ri := range rb.sync.History {
+					if ri.Deleted {
+						tombB++
+					}
+				}
+				ok = tombA > 0 || tombB > 0
+			}
+			explained = explained && ok
+		}
+		if explained {
+			vio.Key = "legacy-protocol-non-winning-tombstone-not-replicated"
+		}
 	}
 	if vio.Key == "" && p.Direction != "pull" {
 		// recorded finding: the pushing side marks a revision as processed whatever the peer answered, so a revision the
